@@ -6,17 +6,22 @@ import "time"
 
 // vProdScenario draws the configuration of the producer scenario. mode 0: many fault scripts
 // under the canonical schedule; mode 1: fewer faults, schedules within one delay.
-func vProdScenario(mode int) vProdCfg {
+func vProdScenario(mode int) vProdCfg { return vProdScenarioSized(mode, vTier() > 0) }
+
+// vProdScenarioSized: big selects the thorough tier's sizes (harnesses that multiply the
+// scenario by further choices keep the small sizes in both tiers).
+func vProdScenarioSized(mode int, big bool) vProdCfg {
 	c := vProdCfg{n: 2, faultMenu: vfKinds}
 	switch {
-	case vTier() == 0 && mode == 0:
+	case !big && mode == 0:
 		c.faults, c.delay = 2, 0
-	case vTier() == 0 && mode == 1:
+	case !big && mode == 1:
 		c.faults, c.delay = 1, 1
 	case mode == 0:
 		c.n, c.faults, c.delay = 3, 3, 0
 	default:
-		c.n, c.faults, c.delay = 3, 2, 2
+		// one scheduling delay with more messages and faults (two delays: > 10^7 schedules even for one configuration)
+		c.n, c.faults, c.delay = 3, 2, 1
 	}
 	c.retryMax = vChoose("retryMax", 3)
 	topo := vChoose("topology", 3)
